@@ -112,6 +112,11 @@ def trace_sig(o, skip=()):
     out = []
     for c, d in o.trace:
         s = key_str(c)
+        if "loopfix" in s or "loopfix" in poly.full_key_text(c):
+            # a test of what the fixed-point loop left behind: the loop's result is written in terms of the input basis, so the
+            # two runs are paired on the outcome of the test, not on its text
+            out.append(("<test of the loop's result>", d))
+            continue
         if ".type'" in s or any(k in s for k in skip):
             continue
         out.append((s, d))
